@@ -148,6 +148,10 @@ def _gen_histories(ctx, binp, pid):
             disorder = 0.0
             if pid == "C14":
                 disorder = 0.25 if j % 2 == 0 else 0.08
+            if pid in ("C04", "C05", "C09", "C12") and j % 3 == 1:
+                hs.append(l2gen.memfill_history(w, rnd, nops + 10))      # memory pressure (both policies)
+                if pid != "C04":
+                    continue
             if pid in ("C01", "C03", "C09") and w["policy"] == "ta" and j % 3 == 2:
                 hs.append(l2gen.fill_history(w, rnd, nops + 10, topup=rnd.random() < 0.5))
                 continue
@@ -176,6 +180,7 @@ def stats(trace_path):
             prev_ctrs = {}
             st["histories"] += 1
             st.pop("_prev_balloons", None)
+            st.pop("_prev_mems", None)
             if "booterr" in e:
                 st["boot_errors"] += 1
             else:
@@ -220,6 +225,11 @@ def stats(trace_path):
         st["pushed_batches"] += len(e.get("pushed", []))
         s = e.get("st")
         if s:
+            # memory zones of OTHER containers moved by this request (widening under pressure, narrowing after a release)
+            pm = st.get("_prev_mems") or {}
+            st["zone_moves"] += sum(1 for c, v in s["ctr"].items() if c != e.get("c") and c in pm and v["mems"] and pm[c]
+                                    and v["mems"] != pm[c] and v["st"] in ("created", "running"))
+            st["_prev_mems"] = {c: v["mems"] for c, v in s["ctr"].items()}
             prev_ctrs = {c: v["st"] for c, v in s["ctr"].items()}
             pol = s.get("pol") or {}
             gr = pol.get("grants") or []
@@ -250,6 +260,7 @@ def stats(trace_path):
                               [(b["name"], b["cpus"], b["ctrs"]) for b in (pol.get("balloons") or [])]])
             st["states"].add(hash(key))
     st.pop("_prev_balloons", None)
+    st.pop("_prev_mems", None)
     st["worlds"] = len(st["worlds"])
     st["distinct_states"] = len(st.pop("states"))
     return st
@@ -259,7 +270,7 @@ NEED = {
     "C01": ["excl_grants", "reserved_grants", "mixed_grants", "updates_in_replies"],
     "C03": ["excl_grants", "reserved_grants", "mixed_grants", "create_failed"],
     "C02": ["create_ok", "create_failed", "updates_in_replies", "stop", "balloons_created", "balloons_deleted", "shared_idle"],
-    "C04": ["create_ok", "updates_in_replies"],
+    "C04": ["create_ok", "updates_in_replies", "zone_moves"],
     "C05": ["create_ok", "create_failed", "updates_in_replies", "multi_update_replies", "pushed_batches", "update_ok", "stop", "sync"],
     "C09": ["quiescent_points", "create_failed", "stop"],
     "C12": ["preserve_cpu", "preserve_mem", "updates_in_replies", "cold_start_done"],
